@@ -76,6 +76,7 @@ Record oracles := mkO {
   o_load : bytes -> bool;                                   (* x509.load_der_x509_certificate succeeds *)
   o_key_kind : bytes -> Z;                                  (* public key of a certificate: 0 unsupported | 1 RSA | 2 EC | 3 Ed25519 | 4 Ed448 | 5 other *)
   o_cert_ok : option bytes -> list bytes -> Z;              (* verify_certificate(server_name, chain): 0 = passes, else the alert *)
+  o_is_ip : bytes -> bool;                                  (* ipaddress.ip_address(name) does not raise ValueError: the name is an IPv4 / IPv6 literal *)
   (* codecs: pull_* on one raw message (BufferReadError already turned into decode_error) *)
   o_parse_ch : bytes -> pres ch_view;
   o_parse_sh : bytes -> pres sh_view;
@@ -219,8 +220,7 @@ Record cfg := mkCfg {
   f_random : bytes;               (* client_random / server_random (os.urandom) *)
   (* client *)
   f_privs : list (Z * bytes);     (* one fresh private key per supported group, in _supported_groups order *)
-  f_server_name : option bytes;
-  f_sni : option bytes;           (* server name as sent (None for an IP literal) *)
+  f_server_name : option bytes;   (* the `server_name` argument of Context(...): the name the application REQUESTED (DNS name or IP literal) *)
   f_verify : bool;                (* _verify_mode != CERT_NONE *)
   f_ticket : option ticket;       (* session_ticket *)
   f_nst_cb : bool;                (* new_session_ticket_cb is not None *)
@@ -289,13 +289,26 @@ Definition with_parse {A} (s : tst) (p : pres A) (k : A -> result) : result :=
   | PExn e => (OExn e, s, [])
   end.
 
+(* ---------- the name flow of tls.Context ---------------------------------------------------------------------
+   Context.__init__ stores its `server_name` argument unchanged in self._server_name (attr_server_name).  Two readers:
+     * _client_send_hello: "literal IPv4 and IPv6 addresses are not permitted in SNI": a LOCAL value, None when
+       ipaddress.ip_address(self._server_name) succeeds (ip_address(None) raises ValueError), goes into the ClientHello
+       extension ONLY (sni_of_name);
+     * _client_handle_certificate_verify: verify_certificate(..., server_name=self._server_name): the configured name
+       itself, IP literals included (verify_name).
+   proofs/TlsNamesP.v ties both to the expressions re-extracted from the current source (gen/TlsNames.v). *)
+Definition attr_server_name (c : cfg) : option bytes := f_server_name c.
+Definition name_is_ip (n : option bytes) : bool := match n with Some b => o_is_ip O b | None => false end.
+Definition sni_of_name (n : option bytes) : option bytes := if name_is_ip n then None else n.
+Definition verify_name (c : cfg) : option bytes := attr_server_name c.
+
 (* ---------- client: _client_send_hello -------------------------------------------------------------------- *)
 Definition client_key_shares (c : cfg) : list key_share := map (fun gp => (fst gp, o_pub O (fst gp) (snd gp))) (f_privs c).
 
 Definition hello_base (c : cfg) : ch_view :=
   mkCH (f_random c) (f_sid c) (f_suites c) (f_comp c) (f_alpn c) false (Some (client_key_shares c)) None
        (match f_ticket c with Some _ => Some (f_kex_modes c) | None => if f_nst_cb c then Some (f_kex_modes c) else None end)
-       (f_sni c) (Some (f_sigalgs c)) (Some (map fst (f_privs c))) (Some (f_versions c)) (f_ext c).
+       (sni_of_name (attr_server_name c)) (Some (f_sigalgs c)) (Some (map fst (f_privs c))) (Some (f_versions c)) (f_ext c).
 
 Definition hello_with_psk (h : ch_view) (t : ticket) (binder : bytes) : ch_view :=
   mkCH (ch_random h) (ch_sid h) (ch_suites h) (ch_comp h) (ch_alpn h) (tk_early t) (ch_key_share h)
@@ -445,7 +458,7 @@ Definition client_handle_certificate_verify (c : cfg) (s : tst) (m : bytes) : re
   match check_cv c s v SERVER_CONTEXT_STRING with
   | Some o => (o, s, [])
   | None =>
-  let verdict := if f_verify c then o_cert_ok O (f_server_name c) (t_peer s) else 0 in
+  let verdict := if f_verify c then o_cert_ok O (verify_name c) (t_peer s) else 0 in
   if negb (verdict =? 0) then (OAlert verdict, s, []) else
   (OOk, set_state (set_ks s (ks_update (the_ks s) m)) CLIENT_EXPECT_FINISHED, [])
   end).
@@ -759,13 +772,14 @@ Definition tk_optl {A} (rd : list Z -> A * list Z) (t : list Z) : option A * lis
   | [] => (None, [])
   end.
 
-Definition exec_oracles (v : ch_view) : oracles :=
+Definition exec_oracles_ip (v : ch_view) (ip : bool) : oracles :=
   mkO (fun a _ => [a]) (fun a _ _ => [a]) (fun a _ _ => [a]) (fun a _ _ _ => [a])
       (fun _ p => p) (fun _ _ => 1) (fun _ _ _ => Some [])
-      (fun _ _ _ => []) (fun _ _ _ _ => true) (fun _ => true) (fun _ => 2) (fun _ _ => 0)
+      (fun _ _ _ => []) (fun _ _ _ _ => true) (fun _ => true) (fun _ => 2) (fun _ _ => 0) (fun _ => ip)
       (fun _ => POk v) (fun _ => PAlert 50) (fun _ => PAlert 50) (fun _ => PAlert 50) (fun _ => PAlert 50)
       (fun _ => PAlert 50) (fun _ => PAlert 50) (fun _ => PAlert 50)
       (fun _ => []) (fun _ => []) (fun _ => []) (fun _ => []) (fun _ => []) (fun _ => []) (fun _ => []).
+Definition exec_oracles (v : ch_view) : oracles := exec_oracles_ip v false.
 
 Definition out_outcome (o : outcome) : list Z :=
   match o with OOk => [0; 0] | OAlert d => [1; d] | OExn k => [2; k] | OQuic c => [3; c] end.
@@ -782,7 +796,7 @@ Definition exec_server_hello (t : list Z) : list Z :=
   let '(c_groups, t) := tk_list t in
   let v := mkCH [] [] c_suites [0] c_alpn false (Some (map (fun g => (g, [1])) c_groups)) None None None c_sigalgs
                 (Some c_groups) c_versions [] in
-  let c := mkCfg s_suites [0] s_versions [] [1] s_alpn [] [[1]] [1] s_keysig [] [] None None false None false [] false false
+  let c := mkCfg s_suites [0] s_versions [] [1] s_alpn [] [[1]] [1] s_keysig [] [] None false None false [] false false
                  (fun _ => None) (fun _ => [1]) (fun _ _ => (0, None)) in
   let '(o, s', _) := server_handle_hello (exec_oracles v) c (init_server c) [1; 0; 0; 0] in
   out_outcome o ++ [match t_ks s' with Some k => k_suite k | None => 0 end] ++
